@@ -7,9 +7,13 @@
 //!
 //! The products are taken in i128; the operand ranges of the `char` harnesses are chosen so that for every q that
 //! satisfies the characterisation no intermediate overflows, and a `checked_*` overflow therefore is a violation:
-//!   * `*_i64range`:  a, b in [i64::MIN, i64::MAX]      (|q*b| <= |a| + |b| < 2^65)
-//!   * `*_i128_unfinished`:  |a|, |b| <= 2^125          (|q*b| <= |a| + |b| <= 2^126, |q*b ± b| < 2^127)
-//! `*_none_iff` and `*_vs_trunc` run on all of i128 x i128.
+//!   * `*_char_i8range`:   a, b in [-128, 127]  — the one range on which CBMC finishes the UNSAT proof (the function under
+//!                         check divides 128-bit values whatever the range of the inputs)
+//!   * `*_char_i64range_unfinished`:  a, b in [i64::MIN, i64::MAX]      (|q*b| <= |a| + |b| < 2^65)
+//!   * `*_char_i128_unfinished`:      |a|, |b| <= 2^125                 (|q*b| <= |a| + |b| <= 2^126, |q*b ± b| < 2^127)
+//! `*_none_iff` (finishes) and `*_vs_trunc_i128_unfinished` run on all of i128 x i128.
+//! The `_unfinished` harnesses time out on the unmodified repository (no verdict: NOT a proof); their use is the other
+//! direction — on a wrong `div_floor`/`div_ceil` they produce a concrete failing input within seconds (README.md).
 #![cfg(kani)]
 mod helpers {
     #![allow(dead_code)]
@@ -49,6 +53,10 @@ fn any_i64range() -> i128 {
     let x: i64 = kani::any();
     x as i128
 }
+fn any_i8range() -> i128 {
+    let x: i8 = kani::any();
+    x as i128
+}
 fn any_le_2p125() -> i128 {
     let x: i128 = kani::any();
     kani::assume(-(1i128 << 125) <= x && x <= (1i128 << 125));
@@ -67,15 +75,29 @@ fn div_ceil_none_iff() {
 }
 
 #[kani::proof]
-fn div_floor_char_i64range() {
+fn div_floor_char_i64range_unfinished() {
     let (a, b) = (any_i64range(), any_i64range());
     if let Some(q) = floor(a, b) {
         assert!(is_floor(q, a, b));
     }
 }
 #[kani::proof]
-fn div_ceil_char_i64range() {
+fn div_ceil_char_i64range_unfinished() {
     let (a, b) = (any_i64range(), any_i64range());
+    if let Some(q) = ceil(a, b) {
+        assert!(is_ceil(q, a, b));
+    }
+}
+#[kani::proof]
+fn div_floor_char_i8range() {
+    let (a, b) = (any_i8range(), any_i8range());
+    if let Some(q) = floor(a, b) {
+        assert!(is_floor(q, a, b));
+    }
+}
+#[kani::proof]
+fn div_ceil_char_i8range() {
+    let (a, b) = (any_i8range(), any_i8range());
     if let Some(q) = ceil(a, b) {
         assert!(is_ceil(q, a, b));
     }
@@ -97,22 +119,19 @@ fn div_ceil_char_i128_unfinished() {
 
 /// all of i128 x i128, relative to Rust's truncating `/` and `%` (q0 = a / b, r0 = a % b: a == q0*b + r0, |r0| < |b|,
 /// r0 == 0 or sign(r0) == sign(a)):   floor = q0 - [r0 != 0 && sign(r0) != sign(b)],  ceil = q0 + [r0 != 0 && sign(r0) == sign(b)]
-/// (z3: the `bvsdiv`/`bvsrem` terms of the harness and of the function under check are shared)
 #[kani::proof]
-#[kani::solver(z3)]
-fn div_floor_vs_trunc_i128() {
+fn div_floor_vs_trunc_i128_unfinished() {
     let (a, b): (i128, i128) = (kani::any(), kani::any());
     kani::assume(b != 0 && !(a == MIN && b == -1));
     let (q0, r0) = (a / b, a % b);
     let adj = r0 != 0 && ((r0 < 0) != (b < 0));
-    assert!(floor(a, b) == Some(if adj { q0 - 1 } else { q0 }));
+    assert!(floor(a, b) == q0.checked_sub(if adj { 1 } else { 0 }));
 }
 #[kani::proof]
-#[kani::solver(z3)]
-fn div_ceil_vs_trunc_i128() {
+fn div_ceil_vs_trunc_i128_unfinished() {
     let (a, b): (i128, i128) = (kani::any(), kani::any());
     kani::assume(b != 0 && !(a == MIN && b == -1));
     let (q0, r0) = (a / b, a % b);
     let adj = r0 != 0 && ((r0 < 0) == (b < 0));
-    assert!(ceil(a, b) == Some(if adj { q0 + 1 } else { q0 }));
+    assert!(ceil(a, b) == q0.checked_add(if adj { 1 } else { 0 }));
 }
